@@ -38,7 +38,7 @@ FLOORS = {'alias_only_pair': 0.03, 'mixed_key_dict': 0.029, 'explicit_default': 
 
 PRESERVING = ['deepcopy', 'pickle', 'rebuild', 'explicit_default', 'dict_reorder', 'history',
               'intern_redirect']
-BREAKING = ['leaf_change', 'fn_swap', 'bt_swap', 'alias_redirect', 'merge', 'alias_retarget']
+BREAKING = ['leaf_change', 'fn_swap', 'bt_swap', 'alias_redirect', 'merge', 'alias_retarget', 'nt_to_tuple']
 _SWAP = {'things:Base': 'things:Other', 'things:Other': 'things:Base', 'things:f2': 'things:Base',
          'things:Mid': 'things:Other', 'things:LeafCls': 'things:Other', 'things:h1': None,
          'things:po2': None}
@@ -105,7 +105,7 @@ def strategy_(draw, tier):
     for nm in names[-2:]:
       root['kw'][nm] = i + 1
     recipe['root'] = i + 2
-  weighted = PRESERVING + BREAKING + ['alias_redirect', 'alias_redirect', 'alias_redirect', 'merge', 'alias_retarget', 'alias_retarget',
+  weighted = PRESERVING + BREAKING + ['alias_redirect', 'alias_redirect', 'alias_redirect', 'merge', 'alias_retarget', 'alias_retarget', 'nt_to_tuple', 'nt_to_tuple',
                                       'dict_reorder', 'explicit_default', 'intern_redirect']
   r1 = [draw(st.sampled_from(weighted)), draw(st.integers(0, 50))]
   r2 = [draw(st.sampled_from(weighted + PRESERVING)), draw(st.integers(0, 50))]
@@ -251,6 +251,15 @@ def rewrite(recipe, kind, sel):
       return recipe, None, 'rebuild'
     nd = nodes[cands[sel % len(cands)]]
     nd['fn'] = {'kind': 'sym', 'name': _SWAP[nd['fn']['name']]}
+    return r, None, kind
+  if kind == 'nt_to_tuple':
+    # a named tuple becomes a plain tuple with the same items (the built value has another type)
+    cands = [i for i in reach if nodes[i]['k'] == 'nt']
+    if not cands:
+      return recipe, None, 'rebuild'
+    nd = nodes[cands[sel % len(cands)]]
+    nd['k'] = 'tuple'
+    nd.pop('type', None)
     return r, None, kind
   if kind == 'bt_swap':
     cands = [i for i in reach if nodes[i]['k'] == 'B']
@@ -410,6 +419,29 @@ def _path_key(p):
   return repr(p)
 
 
+def _retyped_nt_children_visited_before(a, b):
+  """Input feature of the listed finding: every named tuple of `a` that is a plain tuple in `b`
+  holds only identity-bearing objects that are first reached outside it (so the traversal that
+  == compares reports no path below it)."""
+  pa = dict((repr(p), (p, v)) for p, v in C.walk(a))
+  pb = dict((repr(p), v) for p, v in C.walk(b))
+  idn = C.identity_nodes(a)
+  found = False
+  for key, (p, v) in pa.items():
+    w = pb.get(key)
+    # in b the items are reached through index path elements, so look b's node up by position
+    if C.is_namedtuple(v) and type(w) is tuple:
+      found_here = True
+      for _, child in C.children(v):
+        if C.is_leaf(child) or C.is_internable(child) or id(child) not in idn:
+          return False
+        first = idn[id(child)][1][0]
+        if tuple(first[:len(p)]) == tuple(p) and len(first) > len(p):
+          return False
+      found = found or found_here
+  return found
+
+
 def _fv_keys(v):
   return {repr(p) for p in first_visit_paths(v)}
 
@@ -474,6 +506,8 @@ def check(case):
   def kfeat(k, a=None, b=None):
     if a is None:
       return k
+    if k == 'nt_to_tuple':
+      return k + (':children-visited-before' if _retyped_nt_children_visited_before(a, b) else ':own-paths')
     same = same_first_visits_everywhere(a, b)
     return k + (':same-first-visit-paths' if same else ':distinct-first-visit-paths')
 
